@@ -8,9 +8,12 @@ import iomodel
 RULE = ("interval tiers mixing ordinary intervals with gaps and slivers: lengths drawn from {1e-12 .. 5e-8} around the 1e-8 default "
         "threshold, placed at the start, middle and end of the tier, alone and in chains, between labelled neighbours and next "
         "to gaps (sliver gaps too) x minimumIntervalLength in {None, 1e-8 (default), 0.06, 0.5} x min/max overrides below, "
-        "equal to and above the data span x 4 formats x includeBlankSpaces; point tiers under overrides. The written file is "
-        "decoded with the independent reader. non-trivial = the tier contains a sliver or an override is given")
-TRUSTED = ["oracle: the four statements of the property evaluated on (input tier, decoded file) in Python (harness/props/C04.py)"]
+        "equal to and above the data span x 4 formats x includeBlankSpaces; point tiers under overrides; now and then a tier of "
+        "nothing but slivers under a user threshold (0.06, 0.5), a textgrid of length zero, an override that makes the span run "
+        "backwards. The written file is decoded with the independent reader. non-trivial = the tier contains a sliver or an "
+        "override is given")
+TRUSTED = ["oracle: the four statements of the property evaluated on (input tier, decoded file) in Python (harness/props/C04.py), and "
+           "the exact rule proved for the model (C04.removeUltrashort_spec / prep_ok: `kept` below) as the last clause"]
 ASSUMPTIONS = ["timestamps are finite and non-negative; tiers share the textgrid's span before the override"]
 
 case_json = lambda c: c
@@ -40,9 +43,20 @@ def fill(es, lo, hi):
             out.append([prev, s, ""])
         out.append([s, e, l])
         prev = e
-    if prev < hi or not es:
+    if prev < hi:            # an empty tier gets one blank over the span; a span of length zero holds no interval
         out.append([prev, hi, ""])
     return out
+
+
+def kept(F, thr, lo, hi):
+    """the exact rule of _removeUltrashortIntervals on the filled tier F (Lean: C04.kept, removeUltrashort_spec): the intervals
+    at least thr long survive with their labels; the first starts at lo, each ends where the next survivor starts, the last at
+    hi (so a sliver is absorbed by the PRECEDING survivor, an initial run by the first one); no survivor: one blank"""
+    longs = [e for e in F if not e[1] - e[0] < thr]
+    if not longs:
+        return [[lo, hi, ""]] if F else []
+    starts = [lo] + [e[0] for e in longs[1:]] + [hi]
+    return [[starts[i], starts[i + 1], e[2]] for i, e in enumerate(longs)]
 
 
 def oracle(c, r):
@@ -53,6 +67,10 @@ def oracle(c, r):
     lo = g["lo"] if c.get("min") is None else c["min"]
     hi = g["hi"] if c.get("max") is None else c["max"]
     sig = {"op": "save", "blanks": c["blanks"], "thr": thr is not None}
+    if lo > hi:
+        if r[0] == "err" and r[2]:
+            return None
+        return Failure(dict(sig, clause="reversed-span-raises"), f"the requested span [{lo},{hi}] runs backwards and was not rejected: {r[0]}")
     outside = any(t["es"] and (t["es"][0][0] < lo or t["es"][-1][-2] > hi) for t in g["tiers"])
     if outside:
         if r[0] == "err" and r[2]:
@@ -79,17 +97,27 @@ def oracle(c, r):
     if (got["lo"], got["hi"]) != (lo, hi):
         return Failure(dict(sig, clause="override-span"), f"file span [{got['lo']},{got['hi']}] expected [{lo},{hi}]")
     for t, w in zip(g["tiers"], got["tiers"]):
+        # an override is the span of every tier too (the simplified json layout has no tier spans)
+        tlo = t["lo"] if c.get("min") is None else c["min"]
+        thi = t["hi"] if c.get("max") is None else c["max"]
+        if c["fmt"] != "json" and (w["lo"], w["hi"]) != (tlo, thi):
+            return Failure(dict(sig, clause="tier-span"), f"tier {t['name']!r}: span lines [{w['lo']},{w['hi']}] expected [{tlo},{thi}]")
         if t["k"] == "P" or not c["blanks"]:
             if w["es"] != [list(e) for e in t["es"]]:
                 return Failure(dict(sig, clause="verbatim"), f"tier {t['name']!r}: entries {w['es']} expected verbatim {t['es']}")
             continue
         F = fill([list(e) for e in t["es"]], lo, hi)
         W = w["es"]
+        if not F:
+            # lo == hi and no entry: a span of length zero holds no interval
+            if W:
+                return Failure(dict(sig, clause="zero-span-no-interval"), f"tier {t['name']!r}: {W} written into a span of length zero")
+            continue
+        if thr is not None and all(e[1] - e[0] < thr for e in F) and W != [[lo, hi, ""]]:
+            return Failure(dict(sig, clause="all-slivers-one-blank"), f"tier {t['name']!r}: every interval is shorter than {thr}: {W} expected one blank over [{lo},{hi}]")
         # partition with positive lengths
         if not W or W[0][0] != lo or W[-1][1] != hi or any(not e[0] < e[1] for e in W) or any(x[1] != y[0] for x, y in zip(W, W[1:])):
-            if not (thr is not None and all(e[1] - e[0] < thr for e in F)):
-                return Failure(dict(sig, clause="partition"), f"tier {t['name']!r}: written entries {W} do not tile [{lo},{hi}]")
-            continue
+            return Failure(dict(sig, clause="partition"), f"tier {t['name']!r}: written entries {W} do not tile [{lo},{hi}]")
         if thr is None:
             if W != F:
                 return Failure(dict(sig, clause="nothing-absorbed"), f"tier {t['name']!r}: {W} expected {F}")
@@ -115,6 +143,11 @@ def oracle(c, r):
                 k += 1
             if not (F[j][0] <= o[0] <= e[0] and e[1] <= o[1] <= F[k][1]):
                 return Failure(dict(sig, clause="boundary-moves-only-over-slivers"), f"tier {t['name']!r}: {e} became {o}")
+        # the exact rule: which neighbour absorbs a sliver (the preceding kept interval; an initial run goes to the first kept
+        # interval, whose start becomes the file's xmin), blank intervals included
+        K = kept(F, thr, lo, hi)
+        if W != K:
+            return Failure(dict(sig, clause="absorbed-by-preceding"), f"tier {t['name']!r}: {W} expected {K}")
     return None
 
 
@@ -167,9 +200,61 @@ def derived(c, rnd):
         yield {"op": "emit", "tg": c["tg"], "fmt": c["fmt"], "blanks": c["blanks"], "min": c.get("min"), "max": c.get("max"), "minlen": c["minlen"]}
 
 
+def gen_special(rnd):
+    """the three edges the full specification found (A25, A26, A27): a tier of nothing but slivers under a user threshold,
+    a textgrid of length zero, a requested span that runs backwards"""
+    kind = rnd.choice(["allsliver", "zero", "reversed"])
+    fmt = rnd.choice(ioops.FORMATS)
+    if kind == "allsliver":
+        thr = rnd.choice([0.5, 0.06])
+        x = rnd.choice([0.0, 0.0, thr / 3])
+        es = []
+        for _ in range(rnd.randint(1, 5)):
+            if rnd.random() < 0.3:
+                x += thr * rnd.choice([0.2, 0.5, 0.9])          # a sliver gap
+            ln = thr * rnd.choice([0.1, 0.5, 0.9])
+            es.append([x, x + ln, rnd.choice(["a", "b", "", "c d"])])
+            x += ln
+        hi = rnd.choice([x, x, x + thr / 2, x + 1.0])
+        g = {"lo": 0.0, "hi": hi, "tiers": [{"k": "I", "name": "w", "es": es, "lo": 0.0, "hi": hi}]}
+        c = {"op": "save", "tg": g, "fmt": fmt, "blanks": rnd.random() < 0.9, "minlen": thr}
+        if rnd.random() < 0.2:
+            c["min"] = 0.0
+        return c
+    if kind == "zero":
+        x = rnd.choice([0.0, 1.0, 2.5])
+        tiers = [{"k": "I", "name": "w", "es": [], "lo": x, "hi": x}]
+        if rnd.random() < 0.5:
+            tiers.append({"k": "P", "name": "p", "es": rnd.choice([[], [[x, "m"]]]), "lo": x, "hi": x})
+        g = {"lo": x, "hi": x, "tiers": tiers}
+        c = {"op": "save", "tg": g, "fmt": fmt, "blanks": rnd.random() < 0.8, "minlen": rnd.choice([None, None, 1e-8, 0.5])}
+        if rnd.random() < 0.3:       # a zero-length request on an ordinary (empty) textgrid
+            g["hi"] = x + 1.0
+            for t in tiers:
+                t["hi"] = x + 1.0
+            c["max"] = x
+        return c
+    thr = rnd.choice([None, 1e-8, 0.06])
+    es = gen_sliver_tier(rnd, thr) if rnd.random() < 0.5 else []
+    top = max([x for e in es for x in e[:-1]] + [1.0])
+    g = {"lo": 0.0, "hi": top, "tiers": [{"k": "I", "name": "w", "es": es, "lo": 0.0, "hi": top}]}
+    c = {"op": "save", "tg": g, "fmt": fmt, "blanks": rnd.random() < 0.8, "minlen": thr}
+    k = rnd.random()
+    if k < 0.4:
+        c["min"] = top + rnd.choice([1e-9, 1.0])
+    elif k < 0.8:
+        c["max"] = rnd.choice([-1.0, -1e-9])
+    else:
+        c["min"], c["max"] = 2.0, 1.0
+    return c
+
+
 def gen_main(rnd, tier):
     n = 40000 if tier == "thorough" else 4000
     for i in range(n):
+        if rnd.random() < 0.05:
+            yield gen_special(rnd)
+            continue
         thr = rnd.choice([None, 1e-8, 1e-8, 0.06, 0.5])
         tiers = []
         for name in ["w", "p"][:rnd.randint(1, 2)]:
@@ -203,6 +288,33 @@ def corpus():
         yield {"op": "save", "tg": gp, "fmt": fmt, "blanks": True, "minlen": 1e-8, "max": 1.5}
         yield {"op": "save", "tg": g, "fmt": fmt, "blanks": False, "minlen": 1e-8, "max": 1.5}
         yield {"op": "save", "tg": g, "fmt": fmt, "blanks": False, "minlen": 1e-8, "min": 0.5}
+    for c in corpus_edges():
+        yield c
+        yield {"op": "prep", "tg": c["tg"], "blanks": c["blanks"], "min": c.get("min"), "max": c.get("max"), "minlen": c["minlen"]}
+        if c["fmt"] in ("short_textgrid", "long_textgrid"):
+            yield {"op": "emit", "tg": c["tg"], "fmt": c["fmt"], "blanks": c["blanks"], "min": c.get("min"), "max": c.get("max"), "minlen": c["minlen"]}
+
+
+def corpus_edges():
+    """the former witnesses of A25 (every interval a sliver), A26 (span of length zero), A27 (override and the tiers' own span
+    lines; a request that runs backwards) - repaired in /repo"""
+    def tg(es, lo, hi, pts=None):
+        tiers = [{"k": "I", "name": "w", "es": es, "lo": lo, "hi": hi}]
+        if pts is not None:
+            tiers.append({"k": "P", "name": "p", "es": pts, "lo": lo, "hi": hi})
+        return {"lo": lo, "hi": hi, "tiers": tiers}
+    for fmt in ioops.FORMATS:
+        yield {"op": "save", "tg": tg([[0.0, 0.4, "a"], [0.4, 0.8, "b"], [0.8, 1.0, "c"]], 0.0, 1.0), "fmt": fmt, "blanks": True, "minlen": 0.5}
+        yield {"op": "save", "tg": tg([[0.0, 5e-9, "a"]], 0.0, 5e-9), "fmt": fmt, "blanks": True, "minlen": 1e-8}
+        yield {"op": "save", "tg": tg([], 0.0, 0.005), "fmt": fmt, "blanks": True, "minlen": 0.01}
+        yield {"op": "save", "tg": tg([], 1.0, 1.0), "fmt": fmt, "blanks": True, "minlen": None}
+        yield {"op": "save", "tg": tg([], 1.0, 1.0), "fmt": fmt, "blanks": True, "minlen": 1e-8}
+        yield {"op": "save", "tg": tg([], 0.0, 3.0), "fmt": fmt, "blanks": True, "minlen": None, "min": 0.0, "max": 0.0}
+        yield {"op": "save", "tg": tg([], 0.0, 3.0), "fmt": fmt, "blanks": True, "minlen": None, "min": 5.0}
+        yield {"op": "save", "tg": tg([], 0.0, 3.0), "fmt": fmt, "blanks": False, "minlen": 1e-8, "max": -1.0}
+        yield {"op": "save", "tg": tg([[0.0, 1.0, "a"]], 0.0, 3.0, [[0.5, "m"]]), "fmt": fmt, "blanks": True, "minlen": None, "max": 5.0}
+        yield {"op": "save", "tg": tg([[1.0, 1.001, "s"], [1.001, 2.0, "a"]], 0.0, 3.0, [[1.5, "m"]]), "fmt": fmt, "blanks": True, "minlen": 0.01, "min": 0.5}
+        yield {"op": "save", "tg": tg([[1.0, 2.0, "a"]], 0.0, 3.0, []), "fmt": fmt, "blanks": False, "minlen": 1e-8, "min": 0.5, "max": 4.0}
 
 
 def shrink(c):
